@@ -337,6 +337,18 @@ func apply3(op string, in *model3d.Mesh, first bool) (out *model3d.Mesh, st opSt
 				want = append(want, sum.Scale(1/float64(len(nb))))
 			}
 			st.RuleOK = sameVertexSet(out, want)
+		// ---- BlurFiltered: vertices on the plane x = 0 are neighbours of nothing (symmetric filter): they must stay,
+		// the others average their unprotected neighbours; the neighbour lists are fixed over the iterations
+		case "BlurFiltered":
+			f := func(c1, c2 model3d.Coord3D) bool { return !protectedX(c1) && !protectedX(c2) }
+			rates := []float64{1, 0.5}
+			out = in.BlurFiltered(f, rates...)
+			st.RuleOK = sameVertexSet(out, blurRef3(in, f, rates))
+			st.KeepOK = keptInPlace3(in, out, protectedX)
+		case "BlurNeg1": // documented: rate -1 averages every point together with its neighbours
+			out = in.Blur(-1)
+			st.RuleOK = sameVertexSet(out, blurRef3(in, nil, []float64{-1}))
+		// ----
 		case "SmoothAreas":
 			out = in.SmoothAreas(0.05, 3)
 		case "MeshSmoother":
@@ -345,8 +357,16 @@ func apply3(op string, in *model3d.Mesh, first bool) (out *model3d.Mesh, st opSt
 			out = (&model3d.VoxelSmoother{StepSize: 0.1, Iterations: 5}).Smooth(in)
 		case "FlattenBase":
 			out = in.FlattenBase(0)
-		case "ARAP":
+		case "ARAP", "ARAPAbs", "ARAPUniform":
 			a := model3d.NewARAP(in)
+			// ---- other weighting schemes (NewARAPWeighted), started from the Laplace guess
+			switch op {
+			case "ARAPAbs":
+				a = model3d.NewARAPWeighted(in, model3d.ARAPWeightingAbsCotangent, model3d.ARAPWeightingAbsCotangent)
+			case "ARAPUniform":
+				a = model3d.NewARAPWeighted(in, model3d.ARAPWeightingUniform, model3d.ARAPWeightingUniform)
+			}
+			// ----
 			vs := in.VertexSlice()
 			sort.Slice(vs, func(i, j int) bool {
 				if vs[i].X != vs[j].X {
@@ -402,7 +422,21 @@ func apply3(op string, in *model3d.Mesh, first bool) (out *model3d.Mesh, st opSt
 				}
 				cons[lo], cons[hi] = move(lo), move(hi)
 			}
-			mapping := a.DeformMap(cons, nil)
+			var guess map[model3d.Coord3D]model3d.Coord3D
+			if op != "ARAP" { // ---- Laplace: "can be used to generate an initial guess"; it maps every old coordinate
+				guess = a.Laplace(cons)
+				for src, dst := range cons {
+					if guess[src] != dst {
+						st.RuleOK = false
+						st.Note = "Laplace: constraint not met exactly"
+					}
+				}
+				if len(guess) != len(vs) {
+					st.RuleOK = false
+					st.Note += " Laplace: not every coordinate mapped"
+				}
+			}
+			mapping := a.DeformMap(cons, guess)
 			out = in.MapCoords(func(c model3d.Coord3D) model3d.Coord3D { return mapping[c] })
 			for src, dst := range cons {
 				if mapping[src] != dst {
@@ -452,7 +486,8 @@ func apply3(op string, in *model3d.Mesh, first bool) (out *model3d.Mesh, st opSt
 		}
 	}
 	switch op {
-	case "Blur05", "Blur0", "Blur1", "SmoothAreas", "MeshSmoother", "VoxelSmoother", "FlattenBase", "ARAP", "ARAPSeq":
+	case "Blur05", "Blur0", "Blur1", "SmoothAreas", "MeshSmoother", "VoxelSmoother", "FlattenBase", "ARAP", "ARAPSeq",
+		"BlurFiltered", "BlurNeg1", "ARAPAbs", "ARAPUniform":
 		// these move vertices and keep the face structure; if two vertices land on (nearly) the same
 		// coordinates the result is connected differently by construction - not decided
 		st.Merged = len(out.VertexSlice()) < len(in.VertexSlice()) || minVertexGap3(out) < 1e-9
@@ -465,6 +500,58 @@ func apply3(op string, in *model3d.Mesh, first bool) (out *model3d.Mesh, st opSt
 		st.ExactOK = math.Abs(a-b) <= 1e-9*math.Max(1, math.Abs(a)) && math.Abs(in.Area()-out.Area()) <= 1e-9*math.Max(1, in.Area())
 	}
 	return out, st
+}
+
+// blurRef3: the documented blur rule with the neighbour relation fixed by the initial coordinates
+func blurRef3(in *model3d.Mesh, f func(c1, c2 model3d.Coord3D) bool, rates []float64) []model3d.Coord3D {
+	vs := in.VertexSlice()
+	idx := map[model3d.Coord3D]int{}
+	for i, v := range vs {
+		idx[v] = i
+	}
+	nbs := make([][]int, len(vs))
+	for i, v := range vs {
+		for _, p := range neighbours(in, v) {
+			if f == nil || f(v, p) {
+				nbs[i] = append(nbs[i], idx[p])
+			}
+		}
+	}
+	cur := append([]model3d.Coord3D{}, vs...)
+	for _, rate := range rates {
+		next := make([]model3d.Coord3D, len(cur))
+		for i, c := range cur {
+			if len(nbs[i]) == 0 {
+				next[i] = c
+				continue
+			}
+			sum := model3d.Coord3D{}
+			for _, j := range nbs[i] {
+				sum = sum.Add(cur[j])
+			}
+			if rate == -1 {
+				next[i] = sum.Add(c).Scale(1 / float64(len(nbs[i])+1))
+			} else {
+				next[i] = sum.Scale(rate / float64(len(nbs[i]))).Add(c.Scale(1 - rate))
+			}
+		}
+		cur = next
+	}
+	return cur
+}
+
+// keptInPlace3: every protected vertex of in is still a vertex of out
+func keptInPlace3(in, out *model3d.Mesh, protected func(model3d.Coord3D) bool) bool {
+	have := map[model3d.Coord3D]bool{}
+	for _, v := range out.VertexSlice() {
+		have[v] = true
+	}
+	for _, v := range in.VertexSlice() {
+		if protected(v) && !have[v] {
+			return false
+		}
+	}
+	return true
 }
 
 func isLattice3(m *model3d.Mesh) bool {
@@ -593,8 +680,11 @@ func apply2(op string, in *model2d.Mesh) (out *model2d.Mesh, st opStep) {
 		case "EliminateColinearTol":
 			// a tolerance between one and two turning steps of the finely sampled circle
 			out, decimating = in.EliminateColinear(0.05), true
-		case "Subdivide":
+		case "Subdivide", "SubdividePath":
 			out = in.Subdivide(1)
+			if op == "SubdividePath" { // ---- "like Subdivide" for meshes that may include open paths; closed curves here
+				out = in.SubdividePath(1)
+			}
 			// corner cutting: every new vertex is 3/4 - 1/4 along an input segment
 			var want []model2d.Coord
 			in.Iterate(func(s *model2d.Segment) {
@@ -735,6 +825,9 @@ func init() {
 							hangs++
 						}
 						break
+					}
+					if !st.RuleOK {
+						break // already rejected; a result that breaks its own rule (NaN, wild coordinates) is no input for more operations
 					}
 					cur = next
 				}
